@@ -2,13 +2,19 @@
 // four commit APIs (async and sync mixed) while the coordinator is slow or answers with retriable /
 // per-partition errors and a second member makes the group rebalance.
 //
-// op:   cmt <seed> <parts> <brokers> <ncommits> <faultpct> <rebalance 0|1>
-// impl: cfg:<parts> then events
+// op:   cmt <seed> <parts> <brokers> <ncommits> <faultpct> <rebalance 0|1> [<topics 1|2> <delete 0|1> <rewritepct> <queue-pattern 0|1>]
+// impl: cfg:<parts>x<topics> then events
+//
+// A partition is identified by topic and number: partition p of topic "t" is written p, partition p of the
+// second consumed topic "a" (its name sorts before "t") is written 100+p; the topic number is part/100.
 //
 //	Cs:k:api:p=off,p=off      commit number k issued (api a=CommitOffsets s=CommitOffsetsSync r=CommitRecords); every offset is 1000+k
 //	Ce:k:res                  commit k finished as the client sees it (ok / err)
 //	Wc:n:part:off             an OffsetCommit request as it reached the coordinator (request number n), one event per partition
-//	Wr:n:part:err             the coordinator's (or the injected) answer for that partition
+//	Wr:n:part:err             the answer for that partition AS SHOWN TO THE CLIENT (the coordinator's, the injected or the rewritten one)
+//	Wt:part                   the answer for that partition was rewritten on the wire from success to an error code:
+//	                          the coordinator applied the commit, the client is told it failed (partition tainted)
+//	Td:topic                  the topic (number) is about to be deleted through an admin client
 //	CO:part:off               Client.CommittedOffsets at the end        GC:part:off  the group's committed offset (OffsetFetch), -1 none
 //	Q
 package main
@@ -36,16 +42,55 @@ func genCmt(a hx.Args) {
 	r := hx.NewRng(a.Seed)
 	n := a.N(300, 3000)
 	for i := 0; i < n; i++ {
-		hx.Emit("cmt %d %d %d %d %d %d", r.U64()%1000000, 1+r.Intn(4), 1+r.Intn(2), 4+r.Intn(16), hx.Pick(r, []int{0, 10, 25, 40}), r.Intn(2))
+		topics, del, rewrite := 1, 0, 0
+		if r.Chance(70) {
+			topics = 2
+			if r.Chance(45) {
+				del = 1
+			}
+		}
+		if r.Chance(50) {
+			rewrite = hx.Pick(r, []int{15, 30, 50})
+		}
+		pat := 0
+		if r.Chance(25) {
+			pat = 1
+		}
+		hx.Emit("cmt %d %d %d %d %d %d %d %d %d %d", r.U64()%1000000, 1+r.Intn(4), 1+r.Intn(2), 4+r.Intn(16), hx.Pick(r, []int{0, 10, 25, 40}), r.Intn(2), topics, del, rewrite, pat)
 	}
 }
 
 func runCmt(t *testing.T, tk []string) string {
-	if tk[0] != "cmt" || len(tk) != 7 {
+	if tk[0] != "cmt" || len(tk) != 7 && len(tk) != 11 {
 		return "bad-op"
 	}
 	seed := uint64(hx.Atoi(tk[1]))
 	parts, brokers, ncommits, faultpct, rebalance := int(hx.Atoi(tk[2])), int(hx.Atoi(tk[3])), int(hx.Atoi(tk[4])), int(hx.Atoi(tk[5])), tk[6] == "1"
+	ntopics, deleteA, rewritepct, pattern := 1, false, 0, false // the 7-token form: one topic, no deletion, no rewriting, no pattern
+	if len(tk) == 11 {
+		ntopics, deleteA, rewritepct, pattern = int(hx.Atoi(tk[7])), tk[8] == "1", int(hx.Atoi(tk[9])), tk[10] == "1"
+		if ntopics != 1 && ntopics != 2 {
+			return "bad-op"
+		}
+	}
+	topicNames := []string{"t", "a"}[:ntopics]
+	// partition number in the event vocabulary
+	var idmu sync.Mutex
+	topicOfID := map[[16]byte]string{}
+	pnum := func(topic string, id [16]byte, p int32) int {
+		if topic == "" {
+			idmu.Lock()
+			topic = topicOfID[id]
+			idmu.Unlock()
+		}
+		switch topic {
+		case "t":
+			return int(p)
+		case "a":
+			return 100 + int(p)
+		}
+		return 900 + int(p) // never issued: the monitor refuses it
+	}
 	log := &sim.Log{}
 	partial := func() string { return log.String() }
 	sim.Partial.Store(&partial)
@@ -82,9 +127,74 @@ func runCmt(t *testing.T, tk []string) string {
 		wmu.Unlock()
 		for _, rt := range req.Topics {
 			for _, rp := range rt.Partitions {
-				log.Add("Wc:%d:%d:%d", n, rp.Partition, rp.Offset)
+				log.Add("Wc:%d:%d:%d", n, pnum(rt.Topic, rt.TopicID, rp.Partition), rp.Offset)
 			}
 		}
+	}
+	// wire rewriting: in a share of the answers the first partition(s) in the client's processing order
+	// (topic name, then partition number) that the coordinator answered with success are shown to the
+	// client with a non-retriable per-partition error code; the coordinator has applied the commit
+	mrng := hx.NewRng(seed ^ 0x7171)
+	rewriteOn := true
+	net.MutateResponse = func(conn int, key int16, frame []byte) []byte {
+		if key != 8 || rewritepct == 0 || len(frame) < 4 {
+			return nil
+		}
+		wmu.Lock()
+		q := pending[conn]
+		on := rewriteOn
+		roll, pick, cidx := mrng.Intn(100), mrng.Intn(1000), mrng.Intn(3)
+		wmu.Unlock()
+		if len(q) == 0 || !on || roll >= rewritepct {
+			return nil
+		}
+		resp := kmsg.NewPtrOffsetCommitResponse()
+		resp.SetVersion(q[0].v)
+		b := kbin.Reader{Src: frame[4:]}
+		if resp.IsFlexible() {
+			kmsg.SkipTags(&b)
+		}
+		hdr := frame[:len(frame)-len(b.Src)]
+		if resp.ReadFrom(b.Src) != nil {
+			return nil
+		}
+		type ref struct {
+			pn   int
+			code *int16
+		}
+		var refs []ref
+		for i := range resp.Topics {
+			rt := &resp.Topics[i]
+			for j := range rt.Partitions {
+				refs = append(refs, ref{pnum(rt.Topic, rt.TopicID, rt.Partitions[j].Partition), &rt.Partitions[j].ErrorCode})
+			}
+		}
+		if len(refs) < 2 {
+			return nil // a lone partition: nothing else in the answer would be judged
+		}
+		// "a" (100+p) sorts before "t" (p)
+		sort.Slice(refs, func(i, j int) bool {
+			ti, tj := refs[i].pn < 100, refs[j].pn < 100
+			if ti != tj {
+				return tj
+			}
+			return refs[i].pn < refs[j].pn
+		})
+		m := 1 + pick%(len(refs)-1)
+		code := []int16{kerr.OffsetMetadataTooLarge.Code, kerr.InvalidCommitOffsetSize.Code, kerr.TopicAuthorizationFailed.Code}[cidx]
+		changed := false
+		for _, r := range refs[:m] {
+			if *r.code == 0 {
+				*r.code = code
+				changed = true
+				log.Add("Wt:%d", r.pn)
+			}
+		}
+		if !changed {
+			return nil
+		}
+		hx.St.Inc(fmt.Sprintf("fault.commit-rewrite-code-%d", code))
+		return resp.AppendTo(append([]byte(nil), hdr...))
 	}
 	net.OnResponse = func(conn int, key int16, frame []byte, delivered bool) {
 		if key != 8 {
@@ -109,10 +219,23 @@ func runCmt(t *testing.T, tk []string) string {
 			log.Add("Wbad")
 			return
 		}
+		nok, nbad := 0, 0
 		for _, rt := range resp.Topics {
 			for _, rp := range rt.Partitions {
-				log.Add("Wr:%d:%d:%d", p.n, rp.Partition, rp.ErrorCode)
+				log.Add("Wr:%d:%d:%d", p.n, pnum(rt.Topic, rt.TopicID, rp.Partition), rp.ErrorCode)
+				if rp.ErrorCode == 0 {
+					nok++
+				} else {
+					nbad++
+				}
 			}
+		}
+		if nok > 0 && nbad > 0 {
+			hx.St.Inc("wire.commit-answer-mixed")
+		} else if nbad > 0 {
+			hx.St.Inc("wire.commit-answer-all-error")
+		} else {
+			hx.St.Inc("wire.commit-answer-all-ok")
 		}
 	}
 	ports := make([]int, brokers)
@@ -120,15 +243,23 @@ func runCmt(t *testing.T, tk []string) string {
 	for i := range ports {
 		ports[i] = base + i
 	}
-	cluster, err := kfake.NewCluster(kfake.NumBrokers(brokers), kfake.Ports(ports...), kfake.SeedTopics(int32(parts), "t"),
+	cluster, err := kfake.NewCluster(kfake.NumBrokers(brokers), kfake.Ports(ports...), kfake.SeedTopics(int32(parts), topicNames...),
 		kfake.ListenFn(net.ListenFn))
 	if err != nil {
 		return "ERR:cluster:" + err.Error()
 	}
 	defer cluster.Close()
+	for _, tn := range topicNames {
+		if ti := cluster.TopicInfo(tn); ti != nil {
+			idmu.Lock()
+			topicOfID[ti.TopicID] = tn
+			idmu.Unlock()
+		}
+	}
 	var emu sync.Mutex
 	erng := hx.NewRng(seed ^ 0x5151)
 	faultsOn := true
+	forceRetriable := false // queue pattern: the next OffsetCommit request is answered with a retriable coordinator error
 	cluster.ControlKey(8, func(kreq kmsg.Request) (kmsg.Response, error, bool) {
 		cluster.KeepControl()
 		emu.Lock()
@@ -136,6 +267,11 @@ func runCmt(t *testing.T, tk []string) string {
 		roll := erng.Intn(100)
 		kind := erng.Intn(5)
 		slow := erng.Intn(60)
+		if forceRetriable && faultsOn {
+			forceRetriable = false
+			on, roll, kind = true, -1, 1+roll%2
+			hx.St.Inc("scen.cmt.queue-pattern-armed")
+		}
 		emu.Unlock()
 		if !on || roll >= faultpct {
 			return nil, nil, false
@@ -168,7 +304,7 @@ func runCmt(t *testing.T, tk []string) string {
 	backoff := []time.Duration{10 * time.Millisecond, 10 * time.Millisecond, 60 * time.Millisecond, 250 * time.Millisecond}[seed%4]
 	common := []kgo.Opt{kgo.SeedBrokers(cluster.ListenAddrs()...), kgo.Dialer(net.Stack.DialContext),
 		kgo.RetryBackoffFn(func(int) time.Duration { return backoff })}
-	gopts := append([]kgo.Opt{kgo.ConsumerGroup("g"), kgo.ConsumeTopics("t"), kgo.DisableAutoCommit(),
+	gopts := append([]kgo.Opt{kgo.ConsumerGroup("g"), kgo.ConsumeTopics(topicNames...), kgo.DisableAutoCommit(),
 		kgo.SessionTimeout(6 * time.Second), kgo.HeartbeatInterval(300 * time.Millisecond), kgo.RebalanceTimeout(4 * time.Second),
 		kgo.FetchMaxWait(50 * time.Millisecond)}, common...)
 	cl, err := kgo.NewClient(gopts...)
@@ -180,22 +316,36 @@ func runCmt(t *testing.T, tk []string) string {
 	if err != nil {
 		return "ERR:client:" + err.Error()
 	}
-	for p := 0; p < parts; p++ {
-		for i := 0; i < 2; i++ {
-			if err := pr.ProduceSync(ctx, &kgo.Record{Topic: "t", Partition: int32(p), Value: []byte("x")}).FirstErr(); err != nil {
-				return "ERR:produce:" + err.Error()
+	for _, tn := range topicNames {
+		for p := 0; p < parts; p++ {
+			for i := 0; i < 2; i++ {
+				if err := pr.ProduceSync(ctx, &kgo.Record{Topic: tn, Partition: int32(p), Value: []byte("x")}).FirstErr(); err != nil {
+					return "ERR:produce:" + err.Error()
+				}
 			}
 		}
 	}
 	pr.Close()
-	// join, get an assignment and poll every partition once
-	seenParts := map[int32]bool{}
-	for i := 0; i < 40 && len(seenParts) < parts; i++ {
-		pctx, pc := context.WithTimeout(ctx, 500*time.Millisecond)
-		cl.PollFetches(pctx).EachRecord(func(r *kgo.Record) { seenParts[r.Partition] = true })
+	// the admin client that deletes topic "a" (not a group member); connected before the commits start
+	var adel *kgo.Client
+	if deleteA && ntopics == 2 {
+		adel, err = kgo.NewClient(common...)
+		if err != nil {
+			return "ERR:client:" + err.Error()
+		}
+		defer adel.Close()
+		pctx, pc := context.WithTimeout(ctx, 5*time.Second)
+		adel.Ping(pctx)
 		pc()
 	}
-	if len(seenParts) < parts {
+	// join, get an assignment and poll every partition once
+	seenParts := map[int]bool{}
+	for i := 0; i < 40 && len(seenParts) < parts*ntopics; i++ {
+		pctx, pc := context.WithTimeout(ctx, 500*time.Millisecond)
+		cl.PollFetches(pctx).EachRecord(func(r *kgo.Record) { seenParts[pnum(r.Topic, [16]byte{}, r.Partition)] = true })
+		pc()
+	}
+	if len(seenParts) < parts*ntopics {
 		log.Add("ERRwarmup")
 	}
 	rng := hx.NewRng(seed)
@@ -240,8 +390,47 @@ func runCmt(t *testing.T, tk []string) string {
 	}
 	var done sync.WaitGroup
 	crng := hx.NewRng(seed ^ 0x99)
+	drng := hx.NewRng(seed ^ 0x4242)
+	kdel, delAsync := 2+drng.Intn(ncommits), drng.Chance(50) // kdel > ncommits: deleted after the last commit was issued
+	var delWg sync.WaitGroup
+	deleteTopicA := func() {
+		defer delWg.Done()
+		req := kmsg.NewPtrDeleteTopicsRequest()
+		req.TimeoutMillis = 5000
+		req.TopicNames = []string{"a"}
+		rt := kmsg.NewDeleteTopicsRequestTopic()
+		rt.Topic = kmsg.StringPtr("a")
+		req.Topics = append(req.Topics, rt)
+		dctx, dc := context.WithTimeout(ctx, 10*time.Second)
+		defer dc()
+		if _, err := req.RequestWith(dctx, adel); err != nil {
+			log.Add("ERRdelete")
+		}
+		hx.St.Inc("scen.cmt.topic-deleted")
+	}
+	maybeDelete := func(k int) {
+		if adel == nil || k != kdel {
+			return
+		}
+		log.Add("Td:1")
+		delWg.Add(1)
+		if delAsync {
+			go deleteTopicA()
+		} else {
+			deleteTopicA()
+		}
+	}
+	// queue pattern (a share of the scenarios): commit kpat is asynchronous and its first attempt is answered with
+	// a retriable coordinator error, so it sits in its retry back-off; commit kpat+1 is queued behind it with a
+	// context that ends before that back-off does; commit kpat+2 (asynchronous too) follows at once
+	kpat := -10
+	prng := hx.NewRng(seed ^ 0x3131)
+	if pattern && ncommits >= 3 {
+		kpat = 1 + prng.Intn(ncommits-2)
+	}
 	for k := 1; k <= ncommits; k++ {
 		k := k
+		maybeDelete(k)
 		offs := map[int32]kgo.EpochOffset{}
 		var desc []string
 		for p := 0; p < parts; p++ {
@@ -253,6 +442,20 @@ func runCmt(t *testing.T, tk []string) string {
 		if len(offs) == 0 {
 			offs[0] = kgo.EpochOffset{Epoch: -1, Offset: int64(1000 + k)}
 			desc = append(desc, fmt.Sprintf("0=%d", 1000+k))
+		}
+		// the second topic: its partitions are written 100+p
+		offsA := map[int32]kgo.EpochOffset{}
+		if ntopics == 2 {
+			for p := 0; p < parts; p++ {
+				if crng.Chance(60) {
+					offsA[int32(p)] = kgo.EpochOffset{Epoch: -1, Offset: int64(1000 + k)}
+					desc = append(desc, fmt.Sprintf("%d=%d", 100+p, 1000+k))
+				}
+			}
+		}
+		commitMap := map[string]map[int32]kgo.EpochOffset{"t": offs}
+		if len(offsA) > 0 {
+			commitMap["a"] = offsA
 		}
 		sort.Strings(desc)
 		short := seed%5 < 2 && crng.Chance(25)
@@ -275,28 +478,49 @@ func runCmt(t *testing.T, tk []string) string {
 			}
 			done.Done()
 		}
+		if k == kpat {
+			short = false
+			emu.Lock()
+			forceRetriable = true
+			emu.Unlock()
+		}
+		shortFor := time.Duration(-1)
+		if k == kpat+1 {
+			short = true
+			shortFor = time.Duration(prng.Intn(int(backoff/time.Millisecond))) * time.Millisecond
+		}
 		cctx, cc := context.WithTimeout(ctx, 20*time.Second)
 		if short {
 			// a commit whose own context ends early, possibly while it is queued behind a slow or retrying
 			// predecessor: it may or may not take effect, the commits around it must still apply in order
 			cc()
-			cctx, cc = context.WithTimeout(ctx, time.Duration(crng.Intn(120))*time.Millisecond)
+			d := time.Duration(crng.Intn(120)) * time.Millisecond
+			if shortFor >= 0 {
+				d = shortFor
+			}
+			cctx, cc = context.WithTimeout(ctx, d)
 			hx.St.Inc("scen.cmt.short-context")
 		}
-		switch api := crng.Intn(3); api {
+		api := crng.Intn(3)
+		if k >= kpat && k <= kpat+2 {
+			api = 0 // all three asynchronous: a synchronous commit waits (outside its context) for every commit in flight
+		}
+		switch api {
 		case 0:
 			log.Add("Cs:%d:a:%s", k, strings.Join(desc, ","))
 			done.Add(1)
-			cl.CommitOffsets(cctx, map[string]map[int32]kgo.EpochOffset{"t": offs}, onDone)
+			cl.CommitOffsets(cctx, commitMap, onDone)
 		case 1:
 			log.Add("Cs:%d:s:%s", k, strings.Join(desc, ","))
 			done.Add(1)
-			cl.CommitOffsetsSync(cctx, map[string]map[int32]kgo.EpochOffset{"t": offs}, onDone)
+			cl.CommitOffsetsSync(cctx, commitMap, onDone)
 		default:
 			log.Add("Cs:%d:r:%s", k, strings.Join(desc, ","))
 			var recs []*kgo.Record
-			for p, o := range offs {
-				recs = append(recs, &kgo.Record{Topic: "t", Partition: p, Offset: o.Offset - 1, LeaderEpoch: -1})
+			for tn, po := range commitMap {
+				for p, o := range po {
+					recs = append(recs, &kgo.Record{Topic: tn, Partition: p, Offset: o.Offset - 1, LeaderEpoch: -1})
+				}
 			}
 			err := cl.CommitRecords(cctx, recs...)
 			res := "ok"
@@ -310,27 +534,33 @@ func runCmt(t *testing.T, tk []string) string {
 		}
 		_ = cc
 		if crng.Chance(40) {
-			time.Sleep(time.Duration(crng.Intn(40)) * time.Millisecond)
+			if d := crng.Intn(40); k != kpat && k != kpat+1 {
+				time.Sleep(time.Duration(d) * time.Millisecond)
+			}
 		}
 	}
+	maybeDelete(ncommits + 1)
 	done.Wait()
+	delWg.Wait()
 	emu.Lock()
 	faultsOn = false
 	emu.Unlock()
+	wmu.Lock()
+	rewriteOn = false
+	wmu.Unlock()
 	close(stop)
 	wg.Wait()
 	time.Sleep(500 * time.Millisecond)
-	for tp, ps := range cl.CommittedOffsets() {
-		if tp != "t" {
-			continue
-		}
+	co := cl.CommittedOffsets()
+	for _, tn := range topicNames {
+		ps := co[tn]
 		var keys []int
 		for p := range ps {
 			keys = append(keys, int(p))
 		}
 		sort.Ints(keys)
 		for _, p := range keys {
-			log.Add("CO:%d:%d", p, ps[int32(p)].Offset)
+			log.Add("CO:%d:%d", pnum(tn, [16]byte{}, int32(p)), ps[int32(p)].Offset)
 		}
 	}
 	// the group's view
@@ -338,40 +568,46 @@ func runCmt(t *testing.T, tk []string) string {
 	if err == nil {
 		req := kmsg.NewPtrOffsetFetchRequest()
 		req.Group = "g"
-		rt := kmsg.NewOffsetFetchRequestTopic()
-		rt.Topic = "t"
-		for p := 0; p < parts; p++ {
-			rt.Partitions = append(rt.Partitions, int32(p))
-		}
-		req.Topics = append(req.Topics, rt)
 		rg := kmsg.NewOffsetFetchRequestGroup()
 		rg.Group = "g"
-		gt := kmsg.NewOffsetFetchRequestGroupTopic()
-		gt.Topic = "t"
-		gt.Partitions = rt.Partitions
-		rg.Topics = append(rg.Topics, gt)
+		for _, tn := range topicNames {
+			if tn == "a" && adel != nil {
+				continue // deleted: its partitions do not exist any more, nothing to ask for
+			}
+			rt := kmsg.NewOffsetFetchRequestTopic()
+			rt.Topic = tn
+			for p := 0; p < parts; p++ {
+				rt.Partitions = append(rt.Partitions, int32(p))
+			}
+			req.Topics = append(req.Topics, rt)
+			gt := kmsg.NewOffsetFetchRequestGroupTopic()
+			gt.Topic = tn
+			gt.Partitions = rt.Partitions
+			rg.Topics = append(rg.Topics, gt)
+		}
 		req.Groups = append(req.Groups, rg)
 		rctx, rc := context.WithTimeout(ctx, 10*time.Second)
 		resp, err := req.RequestWith(rctx, adm)
 		rc()
 		if err == nil {
-			seen := map[int32]bool{}
-			emit := func(p int32, off int64) {
-				if !seen[p] {
-					seen[p] = true
-					log.Add("GC:%d:%d", p, off)
+			seen := map[int]bool{}
+			emit := func(tn string, id [16]byte, p int32, off int64) {
+				pn := pnum(tn, id, p)
+				if !seen[pn] {
+					seen[pn] = true
+					log.Add("GC:%d:%d", pn, off)
 				}
 			}
 			for _, g := range resp.Groups {
 				for _, gt := range g.Topics {
 					for _, gp := range gt.Partitions {
-						emit(gp.Partition, gp.Offset)
+						emit(gt.Topic, gt.TopicID, gp.Partition, gp.Offset)
 					}
 				}
 			}
 			for _, rt := range resp.Topics {
 				for _, rp := range rt.Partitions {
-					emit(rp.Partition, rp.Offset)
+					emit(rt.Topic, [16]byte{}, rp.Partition, rp.Offset)
 				}
 			}
 		} else {
@@ -384,5 +620,11 @@ func runCmt(t *testing.T, tk []string) string {
 	synctest.Wait()
 	log.Add("Q")
 	hx.St.Inc("scen.cmt")
-	return fmt.Sprintf("cfg:%d ", parts) + log.String()
+	if ntopics == 2 {
+		hx.St.Inc("scen.cmt.two-topics")
+	}
+	if rewritepct > 0 {
+		hx.St.Inc("scen.cmt.rewriting")
+	}
+	return fmt.Sprintf("cfg:%dx%d ", parts, ntopics) + log.String()
 }
